@@ -13,6 +13,8 @@ cleanup: all flag combinations x both in_place values per input network
 from collections import Counter
 from itertools import combinations, product
 
+import numpy as np
+
 from .. import ops, snap
 from ..env import xgi
 
@@ -28,14 +30,26 @@ ANCHORS = (
 )
 RULE = (
     "case = one generated network (<= 8 nodes, <= 10 edges; isolated nodes, singletons, empty edges, multi-edges, several components incl. ties, "
-    "int / gapped / string labels and IDs, hashable attributes; rebuilt through add_node/add_edge for every call) x every derivation of the property: "
+    "node labels int / gapped int / str / tuple (grid coordinates) / frozenset / numpy.int64, edge IDs automatic / int / gapped / permuted / str / non-integer float mixed with int / tuple, "
+    "hashable attributes; built only through add_node/add_edge/add_simplex - never a bulk call - and rebuilt for every call) x every derivation of the property: "
     "cleanup under ALL flag combinations x both in_place values, convert_labels_to_integers (2 attribute names x both in_place), subhypergraph "
     "(node / edge / both selections, keep_isolates), dual + involution, <<, complement, cut_to_order / k_skeleton for every order -1..max+1, "
-    "from_max_simplices, largest_connected_hypergraph (both modes); one evaluation = one derived network compared with the brute-force construction; "
+    "from_max_simplices, largest_connected_hypergraph (both modes).  Kind 'frozen': the input is frozen (N.freeze()) and every non-in-place derivation is applied.  "
+    "Kind 'sequence': 3-6 rounds on ONE object: all non-in-place derivations (3 random cleanup flag sets), then 1-2 in-place edits through the public API "
+    "(add_node_to_edge with existing node+edge, remove_node_from_edge, re-adding other members under the same edge ID, attribute changes, add/remove node/edge), "
+    "then the derivations again on the same object, always compared with the definition on the CURRENT state.  "
+    "one evaluation = one derived network compared with the brute-force construction; "
     "distinct_nontrivial = distinct (function, arguments, source network) where the derivation actually removed, merged, relabelled, exchanged or selected something"
 )
 ASSUMPTIONS = [
     "input classes: constructible networks that satisfy the C01/C02/C03 structural invariant (others are discarded and counted); one label kind per network; attribute values hashable",
+    "iterable node labels (tuple, frozenset): determined empirically on the unchanged tree - cleanup (all flags, 3 classes), convert_labels_to_integers (3 classes), subhypergraph, dual (+ involution), <<, "
+    "complement, cut_to_order / k_skeleton and largest_connected_hypergraph (both modes) handle them exactly and ARE driven with them: they add edges one by one or through bulk tuples "
+    "(members, id, attrs) / (members, attrs) whose first element is a set, which the format detection of add_edges_from reads unambiguously.  from_max_simplices is NOT driven with them: it is built on "
+    "add_edges_from(list of member lists), and the bulk format detection is documented as ambiguous when the members of the first edge are themselves iterable "
+    "(a 2-member list is read as (members, id), a 3-member list as (members, id, attrs))",
+    "tuple edge IDs only on Hypergraph (bulk formats of DiHypergraph / SimplicialComplex.add_simplices_from are ambiguous for them); float edge IDs are non-integer so that they never collide with automatic IDs (C04's subject); edits of a sequence create edges with IDs of the recipe's kind (merge_duplicate_edges sorts the IDs of a group)",
+    "frozen inputs and same-object sequences use the non-in-place derivations only (in-place ones on a frozen network are documented to raise); an edit that the class rejects with XGIError is skipped and counted",
     "DiHypergraph is driven through cleanup(isolates, relabel) and convert_labels_to_integers only; subhypergraph on a SimplicialComplex only with selections that are closed under faces (the class re-closes anything else, C03)",
     "empty edges are neither required to stay nor to go under connected=True / largest_connected_hypergraph (they belong to no component); complement of an edgeless network may be edgeless or hold all singletons (no maximum size is defined there)",
     "largest_connected_hypergraph on the null network may raise ValueError (no component exists; nothing documented); cleanup may not: it is documented to return the cleaned network",
@@ -54,22 +68,27 @@ NOTHING_LEFT_KEY = "cleanup|connected=True,nothing-left|raises-ValueError"
 
 def plan(tier):
     if tier == "quick":
-        return {"corner": 150, "hyper": 800, "simplicial": 400, "directed": 400}
-    return {"corner": 3000, "hyper": 160000, "simplicial": 60000, "directed": 60000}
+        return {"corner": 150, "hyper": 600, "simplicial": 300, "directed": 300, "sequence": 320, "frozen": 120}
+    return {"corner": 3000, "hyper": 120000, "simplicial": 45000, "directed": 45000, "sequence": 48000, "frozen": 16000}
 
 
 def floors(tier):
     f = {
-        "cleanup:Hypergraph": 40000, "cleanup:SimplicialComplex": 5000, "cleanup:DiHypergraph": 2500,
-        "cleanup:all-32-flag-sets-on-one-network": 700,
+        "cleanup:Hypergraph": 35000, "cleanup:SimplicialComplex": 4500, "cleanup:DiHypergraph": 2500,
+        "cleanup:all-32-flag-sets-on-one-network": 600,
         "cleanup:removed-by:merge": 5000, "cleanup:removed-by:singleton": 5000, "cleanup:removed-by:isolate": 5000,
         "cleanup:removed-by:component": 5000, "cleanup:tie-in-component-size": 4000, "cleanup:nothing-left": 500,
         "cleanup:relabel-mapped-back": 15000,
         "relabel:Hypergraph": 2500, "relabel:SimplicialComplex": 1200, "relabel:DiHypergraph": 1200,
-        "subhypergraph": 3500, "subhypergraph:cut-through-edge": 400, "subhypergraph:keep_isolates=False": 800,
-        "dual": 700, "dual:involution": 150, "lshift": 700, "lshift:shared-node-with-attrs": 40, "complement": 700,
-        "cut_to_order:returned": 3000, "cut_to_order:rejected-XGIError": 800, "k_skeleton": 700, "from_max_simplices": 350,
-        "lch:in_place=False": 900, "lch:in_place=True": 900, "lch:tie": 400,
+        "subhypergraph": 4500, "subhypergraph:cut-through-edge": 800, "subhypergraph:keep_isolates=False": 1500,
+        "dual": 900, "dual:involution": 250, "lshift": 900, "lshift:shared-node-with-attrs": 100, "lshift:same-object": 50,
+        "complement": 900, "complement:iterable-node-labels": 150,
+        "cut_to_order:returned": 5000, "cut_to_order:rejected-XGIError": 1200, "k_skeleton": 1000, "from_max_simplices": 250,
+        "lch:in_place=False": 1200, "lch:in_place=True": 700, "lch:tie": 500,
+        "input-nkind:tuple": 150, "input-nkind:fset": 80, "input-nkind:npint": 80, "input-ekind:float": 100, "input-ekind:tuple": 40,
+        "frozen-input:Hypergraph": 40, "frozen-input:SimplicialComplex": 20, "frozen-input:DiHypergraph": 20,
+        "sequence:rounds": 900, "sequence:edit-kept-both-id-sets": 400, "sequence:edit:add_node_to_edge:existing": 100,
+        "sequence:edit:remove_node_from_edge": 100, "sequence:edit:readd-same-id": 150,
     }
     if tier != "quick":
         f = {k: v * 50 for k, v in f.items()}
@@ -95,6 +114,7 @@ class Recipe:
         self.net = net  # network attributes
         self.tags = tuple(tags)
         self.nkind = None  # label kind of the node pool (set by the generators)
+        self.pool = []  # the node pool the recipe was drawn from (used by the same-object edit sequences)
 
     def build(self):
         net = getattr(xgi, self.cls)()
@@ -122,6 +142,24 @@ class Recipe:
         return "\n".join(out)
 
 
+ITERABLE_KINDS = ("tuple", "fset")  # node labels that are themselves iterable (grid coordinates, frozensets)
+ABSENT = {"int": 97, "gap": 51, "str": "zz9", "tuple": (9, 9), "fset": frozenset({99}), "npint": np.int64(97)}
+_KIND_MIX = ("int", "gap", "str", "int", "gap", "str", "tuple", "tuple", "fset", "npint")
+
+
+def node_pool(rng, kind=None, k=None):
+    """ops.node_pool widened by tuple (grid coordinates), frozenset and numpy-integer labels; one kind per network."""
+    kind = kind or rng.choice(_KIND_MIX)
+    k = k or rng.randint(4, 8)
+    if kind in ops.NODE_KINDS:
+        return ops.node_pool(rng, kind, k)
+    if kind == "tuple":
+        return kind, rng.sample([(i, j) for i in range(3) for j in range(4)], k)
+    if kind == "fset":
+        return kind, rng.sample([frozenset(c) for c in ((0,), (1,), (2,), (3,), (0, 1), (1, 2), (0, 2), (0, 3), (1, 3), (2, 3))], k)
+    return kind, [np.int64(i) for i in rng.sample(range(0, 30), k)]
+
+
 def _attrs(rng, p=0.4):
     a = ops.rand_attrs(rng, p=p)
     if rng.random() < 0.08:
@@ -138,10 +176,15 @@ def _net_attrs(rng):
     return {"name": "net-c", "year": rng.choice((1999, 2024))}
 
 
-def _edge_ids(rng, k, kind=None):
-    kind = kind or rng.choice(("auto", "auto", "int", "gap", "str", "perm"))
+def _edge_ids(rng, k, kind=None, cls="Hypergraph"):
+    kinds = ("auto", "auto", "int", "gap", "str", "perm", "float") + (("tuple",) if cls == "Hypergraph" else ())
+    kind = kind or rng.choice(kinds)
     if kind == "auto" or k == 0:
         return "auto", [None] * k
+    if kind == "float":  # non-integer floats mixed with ints: sortable together, never equal to an automatic ID
+        return kind, rng.sample([i + 0.5 for i in range(-2, 10)] + list(range(20, 26)), k)
+    if kind == "tuple":  # what merge_duplicate_edges(rename="tuple") produces
+        return kind, rng.sample([(i, j) for i in range(4) for j in range(i + 1, 6)], k)
     if kind == "str":
         names = ["e0", "e1", "e2", "f", "g", "h", "e10", "zz", "q", "r", "s1", "s2"]
         return kind, rng.sample(names, k)
@@ -174,7 +217,7 @@ def _span(rng, block, hi=3):
 
 def gen_hyper(rng, nkind=None, pool=None):
     if pool is None:
-        nkind, pool = ops.node_pool(rng, nkind)
+        nkind, pool = node_pool(rng, nkind)
     members = []
     if rng.random() < 0.65:
         blocks, _rest = _blocks(rng, pool)
@@ -208,12 +251,12 @@ def gen_hyper(rng, nkind=None, pool=None):
     ekind, ids = _edge_ids(rng, len(members))
     edges = [(m, i, _attrs(rng)) for m, i in zip(members, ids)]
     rec = Recipe("Hypergraph", nodes, edges, _net_attrs(rng), tags=(nkind, ekind))
-    rec.nkind = nkind
+    rec.nkind, rec.pool = nkind, list(pool)
     return rec
 
 
 def gen_simplicial(rng):
-    nkind, pool = ops.node_pool(rng)
+    nkind, pool = node_pool(rng)
     members = []
     if rng.random() < 0.6:
         blocks, _rest = _blocks(rng, pool)
@@ -232,15 +275,15 @@ def gen_simplicial(rng):
     pre = [n for n in pool if n not in used and rng.random() < 0.5] + [n for n in used if rng.random() < 0.4]
     rng.shuffle(pre)
     nodes = [(n, _attrs(rng)) for n in pre]
-    ekind, ids = _edge_ids(rng, len(members), kind=rng.choice(("auto", "auto", "gap", "str")))
+    ekind, ids = _edge_ids(rng, len(members), kind=rng.choice(("auto", "auto", "gap", "str", "float")))
     edges = [(m, i, _attrs(rng)) for m, i in zip(members, ids)]
     rec = Recipe("SimplicialComplex", nodes, edges, _net_attrs(rng), tags=(nkind, ekind))
-    rec.nkind = nkind
+    rec.nkind, rec.pool = nkind, list(pool)
     return rec
 
 
 def gen_directed(rng):
-    nkind, pool = ops.node_pool(rng)
+    nkind, pool = node_pool(rng)
     members = [(ops.rand_members(rng, pool, 0, 3), ops.rand_members(rng, pool, 0, 3)) for _ in range(rng.randint(0, 6))]
     if rng.random() < 0.3 and members:
         members.append(rng.choice(members))
@@ -248,10 +291,10 @@ def gen_directed(rng):
     pre = [n for n in pool if n not in used and rng.random() < 0.6] + [n for n in used if rng.random() < 0.4]
     rng.shuffle(pre)
     nodes = [(n, _attrs(rng)) for n in pre]
-    ekind, ids = _edge_ids(rng, len(members))
+    ekind, ids = _edge_ids(rng, len(members), cls="DiHypergraph")
     edges = [(m, i, _attrs(rng)) for m, i in zip(members, ids)]
     rec = Recipe("DiHypergraph", nodes, edges, _net_attrs(rng), tags=(nkind, ekind))
-    rec.nkind = nkind
+    rec.nkind, rec.pool = nkind, list(pool)
     return rec
 
 
@@ -259,9 +302,9 @@ N_CORNERS = 15
 
 
 def gen_corner(rng, which):
-    nkind, pool = ops.node_pool(rng, k=8)
+    nkind, pool = node_pool(rng, k=8)
     rec = _corner(rng, which, pool)
-    rec.nkind = nkind
+    rec.nkind, rec.pool = nkind, list(pool)
     return rec
 
 
@@ -345,13 +388,35 @@ def minus(a, key):
 class Ctx:
     """Carries the monitor, the recipe and the call description for witnesses."""
 
-    def __init__(self, mon, rec):
+    def __init__(self, mon, rec, frozen=False):
         self.mon, self.rec = mon, rec
         self.fired = False
+        self.frozen = frozen  # the input is frozen (N.freeze()): only the non-in-place derivations apply
+        self.live = None  # same-object sequences: the ONE network every derivation is called on
+        self.edits = []  # script lines of the in-place edits applied to the live network so far
+
+    def make(self):
+        """The network a derivation is called on: a fresh build of the recipe, or the live object of a sequence."""
+        if self.live is not None:
+            return self.live
+        net = self.rec.build()
+        if self.frozen:
+            net.freeze()
+        return net
+
+    @property
+    def in_place_values(self):
+        return (False,) if (self.frozen or self.live is not None) else (True, False)
+
+    def script(self):
+        lines = ["import xgi", "import numpy as np", self.rec.script()]
+        if self.frozen:
+            lines.append("N.freeze()")
+        return "\n".join(lines + self.edits)
 
     def fire(self, key, what, call, extra=""):
         self.fired = True
-        self.mon.fail(key, f"{call}: {what}", f"import xgi\n{self.rec.script()}\n# call: {call}\n{extra}")
+        self.mon.fail(key, f"{call}: {what}", f"{self.script()}\n# call: {call}\n{extra}")
 
 
 # ---------------------------------------------------------------------------------
@@ -487,7 +552,8 @@ def check_cleanup(ctx, cls, src, R, flags, call):
     return None
 
 
-def drive_cleanup(ctx, rec):
+def drive_cleanup(ctx, rec, rng=None, sample=None):
+    """All flag combinations x in_place values (sample=None), or `sample` random flag sets (sequence rounds)."""
     mon, cls = ctx.mon, rec.cls
     if cls == "Hypergraph":
         combos = [(f, dict(isolates=f[0], singletons=f[1], multiedges=f[2], connected=f[3], relabel=f[4])) for f in H_FLAGS]
@@ -495,10 +561,13 @@ def drive_cleanup(ctx, rec):
         combos = [((i, True, True, c, r), dict(isolates=i, connected=c, relabel=r)) for i, c, r in product((False, True), repeat=3)]
     else:
         combos = [((i, True, True, False, r), dict(isolates=i, relabel=r)) for i, r in product((False, True), repeat=2)]
+    full = sample is None
+    if not full:
+        combos = rng.sample(combos, min(sample, len(combos)))
     done = 0
     for flags, kw in combos:
-        for in_place in (True, False):
-            net = rec.build()
+        for in_place in ctx.in_place_values:
+            net = ctx.make()
             src = obs(net)
             call = f"N.cleanup({', '.join(f'{k}={v}' for k, v in kw.items())}, in_place={in_place})"
             N1, _ = cleanup_model(src[0], src[1], flags[0], flags[1], flags[3])
@@ -527,7 +596,7 @@ def drive_cleanup(ctx, rec):
                     continue
             check_cleanup(ctx, cls, src, R, flags, call)
             done += 1
-    if cls == "Hypergraph":
+    if cls == "Hypergraph" and full and len(ctx.in_place_values) == 2:
         mon.note("cleanup:all-32-flag-sets-on-one-network")
 
 
@@ -538,8 +607,8 @@ def drive_relabel(ctx, rec, rng):
     mon, cls = ctx.mon, rec.cls
     fn = "convert_labels_to_integers"
     for attr in ("label", rng.choice(("old", "color", "orig_id"))):
-        for in_place in (False, True):
-            net = rec.build()
+        for in_place in ctx.in_place_values:
+            net = ctx.make()
             N0, E0, net0 = src = obs(net)
             kw = {} if attr == "label" and rng.random() < 0.5 else {"label_attribute": attr}
             call = f"xgi.convert_labels_to_integers(N, {', '.join(f'{k}={v!r}' for k, v in kw.items())}{', ' if kw else ''}in_place={in_place})"
@@ -600,13 +669,13 @@ def drive_relabel(ctx, rec, rng):
 # subhypergraph
 # ---------------------------------------------------------------------------------
 def _absent(rec):
-    return {"int": 97, "gap": 51, "str": "zz9"}[rec.nkind]
+    return ABSENT[rec.nkind]
 
 
 def drive_subhypergraph(ctx, rec, rng):
     mon, cls = ctx.mon, rec.cls
     for shape in ("nodes", "edges", "both", "both"):
-        net = rec.build()
+        net = ctx.make()
         N0, E0, net0 = src = obs(net)
         nodes_sel = edges_sel = None
         with_absent = rng.random() < 0.1
@@ -682,8 +751,8 @@ def drive_subhypergraph(ctx, rec, rng):
 # ---------------------------------------------------------------------------------
 def drive_lch(ctx, rec):
     mon, cls = ctx.mon, rec.cls
-    for in_place in (False, True):
-        net = rec.build()
+    for in_place in ctx.in_place_values:
+        net = ctx.make()
         N0, E0, net0 = src = obs(net)
         comps = components(N0, [m for m, _ in E0.values()])
         call = f"xgi.largest_connected_hypergraph(N, in_place={in_place})"
@@ -731,7 +800,7 @@ def drive_lch(ctx, rec):
 # ---------------------------------------------------------------------------------
 def drive_dual(ctx, rec):
     mon = ctx.mon
-    net = rec.build()
+    net = ctx.make()
     N0, E0, net0 = src = obs(net)
     call = "N.dual()"
     D = net.dual()
@@ -761,23 +830,27 @@ def drive_dual(ctx, rec):
 def drive_lshift(ctx, rec, rng):
     mon = ctx.mon
     nkind = rec.nkind
-    pool = sorted({n for n, _ in rec.nodes} | {x for m, _, _ in rec.edges for x in m}, key=repr)
-    _, more = ops.node_pool(rng, nkind, k=6)
+    H1 = ctx.make()
+    pool = sorted(H1.nodes, key=repr)
+    _, more = node_pool(rng, nkind, k=6)
     pool2 = list(dict.fromkeys(rng.sample(pool, min(len(pool), 4)) + more[:3]))
     rec2 = gen_hyper(rng, nkind=nkind, pool=pool2)
     if rng.random() < 0.3:
         rec2.net = dict(rec2.net, name="second")
-    H1, H2 = rec.build(), rec2.build()
-    if snap.inv(H2):
-        mon.note("discarded:invalid-start-state")
-        return
+    if rng.random() < 0.1:  # the same object on both sides
+        H2, call, extra = H1, "N << N", ""
+        mon.note("lshift:same-object")
+    else:
+        H2, call = rec2.build(), "N << N2"
+        extra = "# N2:\n" + rec2.script().replace("N = ", "N2 = ").replace("\nN.", "\nN2.").replace("\nN[", "\nN2[")
+        if snap.inv(H2):
+            mon.note("discarded:invalid-start-state")
+            return
     s1, s2 = obs(H1), obs(H2)
-    call = "N << N2"
     R = H1 << H2
     mon.note("lshift")
     mon.ev()
     NR, ER, netR = obs(R)
-    extra = "# N2:\n" + rec2.script().replace("N = ", "N2 = ").replace("\nN.", "\nN2.").replace("\nN[", "\nN2[")
     if set(NR) != set(s1[0]) | set(s2[0]):
         return ctx.fire("__lshift__|any|node-set-not-the-union", f"nodes {sorted(NR, key=repr)}", call, extra)
     exp = Counter((m, akey(a)) for m, a in s1[1].values()) + Counter((m, akey(a)) for m, a in s2[1].values())
@@ -808,7 +881,7 @@ def drive_lshift(ctx, rec, rng):
 
 def drive_complement(ctx, rec):
     mon = ctx.mon
-    net = rec.build()
+    net = ctx.make()
     N0, E0, _ = src = obs(net)
     call = "xgi.complement(N)"
     R = xgi.complement(net)
@@ -840,7 +913,7 @@ def drive_complement(ctx, rec):
 # ---------------------------------------------------------------------------------
 def drive_cut(ctx, rec, rng):
     mon, cls = ctx.mon, rec.cls
-    net = rec.build()
+    net = ctx.make()
     N0, E0, net0 = src = obs(net)
     bf_max = max((len(m) - 1 for m, _ in E0.values()), default=None)
     fns = [("cut_to_order", xgi.cut_to_order)]
@@ -890,7 +963,7 @@ def drive_cut(ctx, rec, rng):
 
 def drive_max_simplices(ctx, rec):
     mon = ctx.mon
-    net = rec.build()
+    net = ctx.make()
     N0, E0, _ = src = obs(net)
     call = "xgi.from_max_simplices(N)"
     R = xgi.from_max_simplices(net)
@@ -913,26 +986,118 @@ def drive_max_simplices(ctx, rec):
 
 
 # ---------------------------------------------------------------------------------
-# a case
+# same-object sequences: derive, edit the SAME object in place, derive again
 # ---------------------------------------------------------------------------------
-def run_case(mon, kind, idx, rng):
-    if kind == "corner":
-        rec = gen_corner(rng, idx % N_CORNERS)
-    elif kind == "hyper":
-        rec = gen_hyper(rng)
-    elif kind == "simplicial":
-        rec = gen_simplicial(rng)
-    else:
-        rec = gen_directed(rng)
-    net = rec.build()
-    if snap.inv(net):
-        mon.note("discarded:invalid-start-state")
-        return
-    mon.note(f"input:{rec.cls}")
-    for t in rec.tags:
-        mon.note(f"input-tag:{t}")
-    ctx = Ctx(mon, rec)
-    drive_cleanup(ctx, rec)
+def _fresh_edge_id(rec, net, rng):
+    """An ID for a new edge of the same kind as the recipe's IDs (mixed str / int IDs cannot be sorted by merge)."""
+    ekind = rec.tags[1] if len(rec.tags) > 1 else "auto"
+    have = set(net.edges)
+    if ekind == "str":
+        return next(f"new{i}" for i in range(100) if f"new{i}" not in have)
+    if ekind == "tuple":
+        return next((7, i) for i in range(8, 100) if (7, i) not in have)
+    return None
+
+
+def _edit(net, rec, rng):
+    """One in-place edit through the public API.  Returns (name, script line) or None when nothing applies."""
+    cls = rec.cls
+    nodes, edges = list(net.nodes), list(net.edges)
+    pool = rec.pool or nodes
+    di = cls == "DiHypergraph"
+    names = ["add_node", "remove_node", "set_node_attr", "set_edge_attr", "add_edge", "readd-same-id", "readd-same-id"]
+    if cls != "SimplicialComplex":
+        names += ["add_node_to_edge:existing", "add_node_to_edge:existing", "remove_node_from_edge", "remove_node_from_edge", "remove_edge"]
+    name = rng.choice(names)
+    if name == "add_node":
+        cand = [n for n in pool if n not in nodes] or [ABSENT[rec.nkind]]
+        n = rng.choice(cand)
+        if n in nodes:
+            return None
+        net.add_node(n)
+        return name, f"N.add_node({n!r})"
+    if name == "remove_node":
+        if not nodes:
+            return None
+        n = rng.choice(nodes)
+        net.remove_node(n)
+        return name, f"N.remove_node({n!r})"
+    if name == "set_node_attr":
+        if not nodes:
+            return None
+        n, v = rng.choice(nodes), rng.choice(ops.ATTR_VALUES)
+        net.set_node_attributes({n: v}, name="color")
+        return name, f"N.set_node_attributes({{{n!r}: {v!r}}}, name='color')"
+    if name == "set_edge_attr":
+        if not edges:
+            return None
+        e, v = rng.choice(edges), rng.choice(ops.ATTR_VALUES)
+        net.set_edge_attributes({e: v}, name="w")
+        return name, f"N.set_edge_attributes({{{e!r}: {v!r}}}, name='w')"
+    if name == "add_edge":
+        idx = _fresh_edge_id(rec, net, rng)
+        if di:
+            m = (ops.rand_members(rng, pool, 0, 2), ops.rand_members(rng, pool, 1, 2))
+            net.add_edge(m, idx=idx)
+            return name, f"N.add_edge({m!r}, idx={idx!r})"
+        m = ops.rand_members(rng, pool, 1, 3)
+        if cls == "SimplicialComplex":
+            net.add_simplex(m, idx=idx)
+            return name, f"N.add_simplex({m!r}, idx={idx!r})"
+        net.add_edge(m, idx=idx)
+        return name, f"N.add_edge({m!r}, idx={idx!r})"
+    if not edges:
+        return None
+    e = rng.choice(edges)
+    if name == "remove_edge":
+        net.remove_edge(e)
+        return name, f"N.remove_edge({e!r})"
+    if name == "readd-same-id":  # other members under the same edge ID: the ID sets stay the same
+        if di:
+            t, h = net.edges.dimembers(e)
+            m = (sorted(h, key=repr), sorted(t, key=repr)) if (t != h and rng.random() < 0.5) else (ops.rand_members(rng, pool, 0, 2), ops.rand_members(rng, pool, 1, 2))
+            net.remove_edge(e)
+            net.add_edge(m, idx=e)
+            return name, f"N.remove_edge({e!r}); N.add_edge({m!r}, idx={e!r})"
+        m = ops.rand_members(rng, pool, 1, 3)
+        if cls == "SimplicialComplex":
+            net.remove_simplex_id(e)
+            net.add_simplex(m, idx=e)
+            return name, f"N.remove_simplex_id({e!r}); N.add_simplex({m!r}, idx={e!r})"
+        net.remove_edge(e)
+        net.add_edge(m, idx=e)
+        return name, f"N.remove_edge({e!r}); N.add_edge({m!r}, idx={e!r})"
+    if name == "add_node_to_edge:existing":  # existing node + existing edge: no ID set changes
+        if not nodes:
+            return None
+        n = rng.choice(nodes)
+        if di:
+            d = rng.choice(("in", "out"))
+            net.add_node_to_edge(e, n, d)
+            return name, f"N.add_node_to_edge({e!r}, {n!r}, {d!r})"
+        net.add_node_to_edge(e, n)
+        return name, f"N.add_node_to_edge({e!r}, {n!r})"
+    if name == "remove_node_from_edge":
+        if di:
+            t, h = net.edges.dimembers(e)
+            d = rng.choice([x for x, part in (("in", t), ("out", h)) if part] or [None])
+            if d is None:
+                return None
+            n = rng.choice(sorted(t if d == "in" else h, key=repr))
+            net.remove_node_from_edge(e, n, d)
+            return name, f"N.remove_node_from_edge({e!r}, {n!r}, {d!r})"
+        m = sorted(net.edges.members(e), key=repr)
+        if not m:
+            return None
+        n = rng.choice(m)
+        net.remove_node_from_edge(e, n)
+        return name, f"N.remove_node_from_edge({e!r}, {n!r})"
+    return None
+
+
+def drive_all(ctx, rec, rng, sample=None):
+    """Every derivation of the property that applies to the recipe's class (and to its label kind)."""
+    drive_cleanup(ctx, rec, rng, sample=sample)
     drive_relabel(ctx, rec, rng)
     if rec.cls != "DiHypergraph":
         drive_subhypergraph(ctx, rec, rng)
@@ -942,7 +1107,73 @@ def run_case(mon, kind, idx, rng):
         drive_dual(ctx, rec)
         drive_lshift(ctx, rec, rng)
         drive_complement(ctx, rec)
-    if rec.cls == "SimplicialComplex":
+        if rec.nkind in ITERABLE_KINDS:
+            ctx.mon.note("complement:iterable-node-labels")
+    if rec.cls == "SimplicialComplex" and rec.nkind not in ITERABLE_KINDS:
+        # from_max_simplices is built on the bulk calls add_nodes_from(labels) / add_edges_from(member lists), whose
+        # first-element format detection is documented as ambiguous for labels that are themselves iterable
         drive_max_simplices(ctx, rec)
+
+
+def run_sequence(ctx, rec, rng):
+    mon = ctx.mon
+    ctx.live = net = rec.build()
+    for rnd in range(rng.randint(3, 6)):
+        mon.note("sequence:rounds")
+        drive_all(ctx, rec, rng, sample=3)
+        if ctx.fired:
+            return
+        for _ in range(rng.randint(1, 2)):
+            before = obs(net)
+            try:
+                done = _edit(net, rec, rng)
+            except XGIError:  # an edit the class rejects (e.g. a simplex that exists): not this property's business
+                mon.note("sequence:edit-rejected")
+                done = None
+            if done is None:
+                continue
+            ctx.edits.append(done[1])
+            mon.note(f"sequence:edit:{done[0]}")
+            after = obs(net)
+            if set(after[0]) == set(before[0]) and set(after[1]) == set(before[1]) and after != before:
+                mon.note("sequence:edit-kept-both-id-sets")
+        if snap.inv(net):
+            mon.note("discarded:invalid-state-after-edit")
+            return
+
+
+# ---------------------------------------------------------------------------------
+# a case
+# ---------------------------------------------------------------------------------
+def run_case(mon, kind, idx, rng):
+    base = kind
+    if kind in ("sequence", "frozen"):
+        base = ("hyper", "hyper", "simplicial", "directed")[idx % 4]
+    if base == "corner":
+        rec = gen_corner(rng, idx % N_CORNERS)
+    elif base == "hyper":
+        rec = gen_hyper(rng)
+    elif base == "simplicial":
+        rec = gen_simplicial(rng)
+    else:
+        rec = gen_directed(rng)
+    net = rec.build()
+    if snap.inv(net):
+        mon.note("discarded:invalid-start-state")
+        return
+    mon.note(f"input:{rec.cls}")
+    mon.note(f"input-nkind:{rec.nkind}")
+    if base == "corner":
+        mon.note(f"input-corner:{rec.tags[0]}")
+    else:
+        mon.note(f"input-ekind:{rec.tags[1]}")
+    ctx = Ctx(mon, rec, frozen=(kind == "frozen"))
+    if kind == "sequence":
+        mon.note(f"sequence:{rec.cls}")
+        run_sequence(ctx, rec, rng)
+    else:
+        if kind == "frozen":
+            mon.note(f"frozen-input:{rec.cls}")
+        drive_all(ctx, rec, rng)
     if not ctx.fired:
-        mon.sample(rec.script().replace("\n", "; "))
+        mon.sample(ctx.script().replace("\n", "; "))
